@@ -1851,6 +1851,9 @@ func TestC11(t *testing.T) {
 	if part != "2" && c11Enumerate(t, c) > 0 {
 		return
 	}
+	if part != "2" && !t.Failed() {
+		c11RunWide(t, c)
+	}
 	if part == "1" {
 		return
 	}
